@@ -45,6 +45,9 @@ func dispatchMore(cmd string, args []string) bool {
 	case "listobs":
 		cmdListObs(args)
 		return true
+	case "lexobs":
+		cmdLexObs(args)
+		return true
 	case "campaign":
 		cmdCampaign(args)
 		return true
